@@ -10,7 +10,7 @@ TOKEN_ALPHA = ['\\', '{', '}', '$', '$$', '\n', ' ', 'a', '%', '%c\n', '[', ']',
                '\\item', '\\textbf', '\\x', '\\[', '\\]', '\\(', '\\)', '\\begin{verbatim}', '\\end{verbatim}',
                '\\begin{equation}', '\\end{equation}', '\\newcommand', '\\begin', '\\left(', '\\cup', '\\def',
                '\\section', '\\label', '\\\\', '\\%', '\\ ', '\\$', '{a}', '[b]', '\n\n', '1', '(', ')',
-               '\\begin{itemize}', '\\end{itemize}', '\\big[', ' {', '\n[']
+               '\\begin{itemize}', '\\end{itemize}', '\\big[', ' {', '\n[', '\\left', '\\Bigg', '\\right']
 
 SMALL_ALPHA = ['\\', '{', '}', '$', '\n', ' ', 'a', '%', '[', ']', '\\begin{a}', '\\end{a}', '\\item', '\\x',
                '\\(', '\\)', '{a}', '[b]', '\\end']
@@ -250,4 +250,36 @@ def signature_probe_docs():
                   '\\%s{a} [b]', '\\%s\n\n{a}'):
             s = t.replace('%s', n)
             out += [s + ' z', '$' + s + '$', '\\begin{a}' + s + '\\end{a}', '{' + s + '}']
+    return out
+
+
+def length_boundary_docs():
+    """runs whose length sits at a power of two (buffers, block-wise scans): comment payloads, text runs, blank runs,
+    command names, argument runs"""
+    out = []
+    for n in (63, 64, 65, 127, 128, 129, 255, 256, 257, 511, 512, 513, 767, 1023, 1024, 1025, 4095, 4096, 4097):
+        for k in (n - 1, n):        # with and without the `%` / backslash counted
+            out.append('a %' + 'c' * k + '\n\\x{b}')
+            out.append('{%' + '}' * k + '\n}')
+            out.append('\\x{' + 'a' * k + '}')
+            out.append('\\x' + ' ' * k + '{a}')
+            out.append('\\' + 'n' * k + '{a}')
+            out.append('$' + 'x' * k + '$')
+    for n in (255, 256, 257):
+        out.append('\\x' + '{a}' * n)
+        out.append('\\begin{verbatim}' + '$' * n + '\\end{verbatim}')
+        out.append('\\\\' * n)
+    return out
+
+
+def sizing_spacing_docs():
+    """every sizing prefix x every delimiter, written tight and with blanks / a line break in between (only the tight
+    form is a sizing command; with a blank the prefix is an ordinary command and the delimiter plain text)"""
+    import gen_doc as G
+    out = []
+    for p in G.SIZE_PREFIX:
+        for d in G.SIZE_DELIMS:
+            for sep in ('', ' ', '\t', '  ', '\n', ' \n '):
+                out.append('$\\' + p + sep + d + 'x$')
+                out.append('a\\' + p + sep + d)
     return out
